@@ -372,6 +372,8 @@ func main() {
 		cmdBuild(os.Args[2:])
 	case "complete":
 		cmdComplete(os.Args[2:])
+	case "dag":
+		cmdDag(os.Args[2:])
 	default:
 		fmt.Fprintln(os.Stderr, "unknown subcommand", os.Args[1])
 		os.Exit(2)
